@@ -352,7 +352,7 @@ func (fc *fileCtx) walkBlocks() {
 	}
 	if *level >= 3 && fc.generics {
 		fc.rewriteMapAccesses()
-		if fc.wantFields(fc.rel) {
+		if fc.wantFields(fc.rel) || *fieldTypesF != "" {
 			fc.rewriteFieldAccesses()
 		}
 	}
